@@ -184,7 +184,7 @@ func TestC14(t *testing.T) {
 			return
 		}
 		o.Protocol = string(client.Protocol())
-		ok, _, _ := within(60*time.Second, func() {
+		ok, _, _ := within(240*time.Second, func() {
 			defer func() {
 				if r := recover(); r != nil {
 					o.Panic = fmt.Sprint(r)
@@ -196,7 +196,10 @@ func TestC14(t *testing.T) {
 				return
 			}
 			step := func(name string, fn func() error) bool {
-				okk, _, _ := within(25*time.Second, func() {
+				// a watchdog, not a deadline: 90 s of time in which this process was being scheduled (within counts
+				// only ticks that arrived on time). 25 s fired once for every 8 MiB transfer of a run on a loaded copy
+				// of the sandbox (DESIGN 7.4); a call that never returns is reported all the same, only later.
+				okk, _, _ := within(90*time.Second, func() {
 					if err := fn(); err != nil {
 						switch name {
 						case "ping":
